@@ -573,6 +573,96 @@ theorem untransform_out_of_domain_witness :
     simp [untransform, Dist.width, ucols, decode, this, bind, Option.bind, pure]
   · simp [Dist.contains]
 
+/-- The SECOND excluded configuration (`transform_log=False ∧ transform_step=True`, now with `transform_0_1=True`) is out of contract
+as well: the box is the unit interval, the raw bounds of the log-int `IntDistribution(1, 4, log=True)` are `[1/2, 9/2]`, and the box
+point `1/40` un-scales to `1/2 + 1/40 · 4 = 3/5`, which untransforms to `int(0.6) = 0`, not in the domain.  So the hypothesis
+`c.tlog = true ∨ c.tstep = false` of `untransform_in_domain` excludes exactly the two configurations on which the statement is false. -/
+theorem untransform_out_of_domain_witness_01 :
+    let E : Env := ⟨id, id, fun h => h - 1⟩
+    let c : TCfg := ⟨false, true, true⟩
+    let d : Dist := .int .int 1 4 true 1
+    WF d ∧ bounds E c [d] = [(0, 1)] ∧ untransform E c [d] [1/40] = some [.int 0] ∧
+      d.contains 0 = false := by
+  refine ⟨by simp [WF, IClsOK], ?_, ?_, ?_⟩
+  · simp [bounds, boundsOf, tnum, Dist.isLog]
+  · have h1 : (1/2 : Rat) + 1/40 * (9/2 - 1/2) = 3/5 := by norm_num
+    have : truncI (3/5 : Rat) = 0 := by
+      simp only [truncI]; norm_num [floor_eq]
+    simp [untransform, Dist.width, ucols, decode, boundsOf, tnum, Dist.isLog, unscale01, List.zipWith, bind, Option.bind, pure]
+    first
+      | exact this
+      | (rw [h1]; exact this)
+      | (norm_num; exact this)
+      | (have h2 : (2⁻¹ : Rat) + 40⁻¹ * (9 / 2 - 2⁻¹) = 3/5 := by norm_num
+         rw [h2]; exact this)
+  · simp [Dist.contains]
+
+/-! ### the exclusion of `untransform_transform_id`, named (known finding F10a) -/
+
+/-- a canonical contained external value — `Canon` without its clamp clause -/
+def Contained : Dist → Tok → Prop
+  | .flt _ low high _ Option.none, v => ∃ q, v = .flt q ∧ low ≤ q ∧ q ≤ high
+  | .flt _ low high _ (some s), v => ∃ k : Int, v = .flt ((k : Rat) * s + low) ∧ 0 ≤ k ∧ (k : Rat) * s + low ≤ high
+  | .int _ low high _ step, v => ∃ i : Int, v = .int i ∧ low ≤ i ∧ i ≤ high ∧ (i - low) % step = 0
+  | .cat cs, v => ∃ i, cs[i]? = some v ∧ firstIdx (fun c => v.catEq c) cs = some i
+
+/-- **NotAtOpenHigh** — the one exclusion of `untransform_transform_id`: for a float distribution WITHOUT step whose range is not a
+single point, the value is not above the half-open clamp `below high` (= `nextafter(high, high - 1)`); in particular it is not `high`
+itself.  Every other class is unrestricted.  (Known finding F10a: at `high` the round trip returns `below high`.) -/
+def NotAtOpenHigh (E : Env) : Dist → Tok → Prop
+  | .flt _ low high _ Option.none, v => low < high → ∀ q, v = .flt q → q ≤ E.below high
+  | _, _ => True
+
+theorem canon_iff (E : Env) (d : Dist) (v : Tok) : Canon E d v ↔ Contained d v ∧ NotAtOpenHigh E d v := by
+  cases d with
+  | flt c low high log step =>
+    cases step with
+    | none =>
+      simp only [Canon, Contained, NotAtOpenHigh]
+      constructor
+      · rintro ⟨q, rfl, h1, h2, h3⟩
+        exact ⟨⟨q, rfl, h1, h2⟩, fun hl q' hq => by cases hq; exact h3 hl⟩
+      · rintro ⟨⟨q, rfl, h1, h2⟩, hn⟩
+        exact ⟨q, rfl, h1, h2, fun hl => hn hl q rfl⟩
+    | some s => simp [Canon, Contained, NotAtOpenHigh]
+  | int c low high log step => simp [Canon, Contained, NotAtOpenHigh]
+  | cat cs => simp [Canon, Contained, NotAtOpenHigh]
+
+theorem forall2_canon (E : Env) {space : List Dist} {params : List Tok}
+    (h1 : List.Forall₂ Contained space params) (h2 : List.Forall₂ (NotAtOpenHigh E) space params) :
+    List.Forall₂ (Canon E) space params := by
+  induction h1 with
+  | nil => exact List.Forall₂.nil
+  | cons h t ih =>
+    cases h2 with
+    | cons h' t' => exact List.Forall₂.cons ((canon_iff E _ _).2 ⟨h, h'⟩) (ih t')
+
+/-- **untransform_transform_id_named** — `untransform_transform_id` with its exclusion spelled out: for canonical CONTAINED values that
+are `NotAtOpenHigh`, transform-then-untransform is the identity (every search space, every configuration) -/
+theorem untransform_transform_id_named (E : Env) (c : TCfg) (hE : EnvOK E) (space : List Dist) (params : List Tok)
+    (hwf : ∀ d ∈ space, WF d) (hv : List.Forall₂ Contained space params) (hopen : List.Forall₂ (NotAtOpenHigh E) space params) :
+    ∃ xs, transform E c space params = .ok xs ∧ List.Forall₂ InB (bounds E c space) xs ∧
+      untransform E c space xs = some params :=
+  untransform_transform_id E c hE space params hwf (forall2_canon E hv hopen)
+
+/-- **untransform_transform_id_fails_at_high** — the exclusion is needed (F10a): `FloatDistribution(0, 1)` at the value `high = 1`, with
+the clamp `below 1 = 7/8`: the value is contained, it is NOT `NotAtOpenHigh`, `transform` gives the column `1`, and `untransform`
+returns `7/8 ≠ 1`. -/
+theorem untransform_transform_id_fails_at_high :
+    let E : Env := ⟨id, id, fun h => h - 1/8⟩
+    let c : TCfg := ⟨true, true, false⟩
+    let d : Dist := .flt .float 0 1 false Option.none
+    WF d ∧ Contained d (.flt 1) ∧ ¬ NotAtOpenHigh E d (.flt 1) ∧
+      transform E c [d] [.flt 1] = .ok [1] ∧ untransform E c [d] [1] = some [.flt (7/8)] := by
+  refine ⟨?_, ⟨1, rfl, by norm_num, by norm_num⟩, ?_, ?_, ?_⟩
+  · refine ⟨by norm_num, by simp, by simp, trivial⟩
+  · intro h
+    have := h (by norm_num) 1 rfl
+    norm_num at this
+  · simp [transform, tcols, encode, Tok.num?, tnum, Dist.isLog, bind, Except.bind, pure, Except.pure, Except.map]
+  · simp [untransform, Dist.width, ucols, decode, Dist.single, bind, Option.bind, pure]
+    norm_num
+
 -- non-vacuity of the two theorems' hypotheses on a mixed space
 example : Canon ⟨id, id, fun h => h - 1⟩ (.flt .float 0 1 false (some (1/4))) (.flt ((3 : Int) * (1/4) + 0)) :=
   ⟨3, rfl, by norm_num, by norm_num⟩
